@@ -107,28 +107,25 @@ def judge(t):
                 if lost:
                     V('C08.1-closure', 'module %s imports %s but the compiler did not register them' % (m, lost), what='import-lost')
     # 3b. the tree handed to the generator is the one parsed from the first supplying source
+    by_mod = {}
+    for i_, b in enumerate(attempts):
+        if b['ok']:
+            for (m, ast2, _mi) in b['mods']:
+                by_mod.setdefault(m, []).append((i_, b, ast2))
     for c in t.by('codegen.genCode'):
         wnr = winners.get(c.mib)
         if wnr is None:
             continue
         a, ast = wnr
-        last_ast = None
-        for b in attempts:
-            for (m, ast2, _mi) in b['mods']:
-                if m == c.mib:
-                    last_ast = ast2
         if c.kw.get('ast') is not ast and c.kw.get('ast') != ast and not multi:
             V('C08.3-source-order', 'code for %s was generated from a tree that did not come from the first source supplying it (source %d)' % (c.mib, a['src']), what='wrong-tree')
         # 3d. a module that was looked up by its own name and supplied by a source stays that source's: a copy arriving
-        # later in the same call as a by-stander of a file fetched for another module (from the same or a later source)
-        # does not replace the text that is compiled
-        own = [(b, ast2) for b in attempts if b['ok'] and b['name'] == c.mib for (m, ast2, _mi) in b['mods'] if m == c.mib]
+        # later in the same call as a by-stander of a file fetched for another module (from a source further down the list:
+        # then "the first source that holds a module supplies the text" is unambiguous) does not replace the text that is compiled
+        own = [x for x in by_mod.get(c.mib, ()) if x[1]['name'] == c.mib]
         if own:
-            b0, ast0 = own[0]
-            # (judged only when the later copy comes from a source further down the list: then "the first source that holds
-            # a module supplies the text" is unambiguous)
-            later = [b for b in attempts if b['ok'] and b is not b0 and attempts.index(b) > attempts.index(b0) and b['src'] > b0['src']
-                     and any(m == c.mib for (m, _a, _mi) in b['mods'])]
+            i0, b0, ast0 = own[0]
+            later = [x[1] for x in by_mod.get(c.mib, ()) if x[0] > i0 and x[1]['src'] > b0['src']]
             if later and c.kw.get('ast') is not ast0 and c.kw.get('ast') != ast0:
                 V('C08.3-source-order', 'source %d supplied %s when it was looked up; the code was generated from a copy that arrived later in the file fetched for %s from source %d' % (
                     b0['src'], c.mib, later[-1]['name'], later[-1]['src']), what='replaced-by-later-copy')
@@ -203,6 +200,31 @@ def _run(scn, root):
     if scn.get('files'):
         t.world.probe('multi-module-file')
     return cs.outcome(t, viol, extra_sig=[cyc, bool(scn.get('files')), len(specs)])
+
+
+SWEEP_SET = {'quick': 'import chains of 300 and 1100 modules (deeper than the interpreter recursion limit), with diagnostic logging off and on; a 300-module import cycle',
+             'thorough': 'same'}
+
+
+def _chain(n, cycle=False):
+    specs = {}
+    for i in range(n):
+        name = 'M%04d-MIB' % i
+        nxt = ['M%04d-MIB' % (i + 1)] if i + 1 < n else (['M0000-MIB'] if cycle else [])
+        specs[name] = {'name': name, 'imports': nxt, 'oidparent': None, 'arc': 10000 + i, 'identity': False, 'nobj': 0, 'arcs': [], 'compliance': False, 'variant': 'ok'}
+    return specs
+
+
+def sweep(tier):
+    out = []
+    for n, cyc, dbg in ((300, False, False), (1100, False, False), (1100, False, True), (300, True, True)):
+        specs = _chain(n, cyc)
+        scn = {'modules': specs, 'codegen': 'json', 'files': {}, 'requested': ['M0000-MIB'], 'sources': [{'holds': dict((m, {'o': 'ok'}) for m in specs), 'base': 'all', 'mtime': core.EPOCH0 - 50}],
+               'searchers': [], 'borrowers': [], 'options': {}, 'deep_chain': n}
+        if dbg:
+            scn['debug'] = True
+        out.append(scn)
+    return out
 
 
 def generate(rng, tier):
